@@ -13,8 +13,10 @@ for id in $ids; do
   d1=$(cd "$work" && SEED_REPO="$work/repo" /venv/bin/python /verif/seeded/$id/demo.py >/dev/null 2>&1; echo $?)
   suite=""
   [ "${SUITE:-0}" = 1 ] && suite=" suite:$(/verif/tools/baseline.py "$work/repo" | head -1)"
-  out=$(VERIF_REPO="$work/repo" VERIF_EVIDENCE_DIR="$work/ev" VERIF_REPLAY_DIR="$work/rp" /verif/check "${id%%-*}" --tier quick 2>&1)
+  # (meta.json may name the check that catches the change when it is not the property's own: C08-r4 is caught by C20)
+  chk=$(python3 -c "import json,sys; print(json.load(open('/verif/seeded/$id/meta.json')).get('check') or '${id%%-*}')")
+  out=$(VERIF_REPO="$work/repo" VERIF_EVIDENCE_DIR="$work/ev" VERIF_REPLAY_DIR="$work/rp" /verif/check "$chk" --tier quick 2>&1)
   rc=$?
-  echo "$id demo_clean=$d0 demo_patched=$d1 check_rc=$rc violations=$(echo "$out" | grep -c '^VIOLATION')$suite $(echo "$out" | grep '^VIOLATION' | head -1 | grep -o 'mechanism=[^ ]*' | cut -c1-100)"
+  echo "$id demo_clean=$d0 demo_patched=$d1 check=$chk check_rc=$rc violations=$(echo "$out" | grep -c '^VIOLATION')$suite $(echo "$out" | grep '^VIOLATION' | head -1 | grep -o 'mechanism=[^ ]*' | cut -c1-100)"
   rm -rf "$work"
 done
